@@ -23,7 +23,8 @@ NestedClash(a, b) ==
        /\ a.ex[e].ex # b.ex[e].ex
 KnownShape(h) ==
   IF \E r1, r2 \in AllReqs(h) : Key(r1.name) = Key(r2.name) /\ NestedClash(r1.kind, r2.kind)
-  THEN "nested-instance-merge" ELSE ""
+  THEN "nested-instance-merge"
+  ELSE IF OwnerNameShape(h) THEN "owner-import-name" ELSE ""
 
 ReplayLine ==
   LET ok == ~Fails(hist)
@@ -41,4 +42,6 @@ FocusCore == {1, 2, 3, 4, 5, 6, 7, 10, 12, 14, 25, 26}
 FocusUses == {1, 5, 29, 30, 31, 32, 33, 34, 35, 36, 37}
 \* versions differing in build metadata only, next to lower and higher ones
 FocusBuild == {1, 4, 5, 6, 38}
+\* one signature through one or two type definitions; a resource required alone and through a user
+FocusShape == {1, 2, 5, 8, 29, 32, 37, 39, 40, 41, 42, 43, 44}
 ====
